@@ -19,6 +19,7 @@ INSIDE `cancel` / `cancel_token` (`overflowDrain`).
 import Compio.Lemmas.KeyLifeCancel
 import Compio.Gen.WithCancel
 import Compio.Model.ExtStack
+import Compio.Model.KeyLifeScript05
 
 namespace Compio.Props.C05
 
@@ -435,5 +436,75 @@ example :
         .submit, .kPost 0 false ECANCELED, .pollEntries, .userPop 0]).map
       (fun s => s.ops.map fun o => (o.kstat, o.kcancel, o.result, o.returned, o.cancelDropped))
     = some [(.done, true, some ECANCELED, 1, 0), (.inflight, false, none, 0, 0)] := by rfl
+
+/-! ### every submit flavour registers the fresh key unconditionally (table regenerated from future.rs / stream.rs) -/
+
+/-- the three flavours are all there, each exactly once -/
+theorem submit_flavours_complete : Gen.submitRegisterSites.map (·.1) = ["plain", "with_extra", "multi"] := by decide
+
+/-- `Submit<T, ()>::poll`, `Submit<T, Extra>::poll`, `SubmitMulti::poll_next`: the `State::Idle` arm is exactly
+`if let Some(cancel) = cx.get_cancel() { cancel.register(&key); }` — no condition on the state of the token -/
+theorem submit_flavours_register_unconditionally :
+    ∀ r ∈ Gen.submitRegisterSites, r.2.2.1 = true ∧ r.2.2.2 = true := by decide
+
+/-- hence the model driver hands the key of every flavour to the token, fired or not -/
+theorem every_flavour_reaches_the_token :
+    ∀ fl ∈ ["plain", "with_extra", "multi"], ∀ fired : Bool,
+      KeyLife.Script05.flavourRegisters Gen.submitRegisterSites fl fired = true := by decide
+
+/-- **late registration, every submit flavour**: the flavour registers the key with the fired token
+(`every_flavour_reaches_the_token`, from the source), and `Token.register` on a fired token cancels it at once
+(`late_registration_cancels`) -/
+theorem late_registration_cancels_every_flavour {c : Cfg} (fl : String) (hfl : fl ∈ ["plain", "with_extra", "multi"])
+    (t : Token) (ht : t.fired = true) (id : Nat) (posts : List (Nat × Bool × Res)) {s s' : State}
+    (h : run c s (t.register id posts).2 = some s') :
+    KeyLife.Script05.flavourRegisters Gen.submitRegisterSites fl t.fired = true ∧
+      (t.register id posts).2 = [.cloneCancel id posts] ∧ ∃ x, s'.ops[id]? = some x ∧ x.cancelled = true :=
+  ⟨every_flavour_reaches_the_token fl hfl t.fired, (late_registration_cancels t ht id posts h).1,
+    (late_registration_cancels t ht id posts h).2.2⟩
+
+/-- a flavour whose registration is conditional (the seeded `cx.get_cancel().filter(|c| !c.is_cancelled())`) loses the late
+registration: the obligation above is not vacuous -/
+example : KeyLife.Script05.flavourRegisters [("with_extra", "f", true, false)] "with_extra" true = false := by decide
+
+/-! ### operations waiting on several descriptors (polling driver, `Splice`): cancel is local and complete -/
+
+/-- the cancel emits exactly ONE cancelled entry, for the cancelled operation, whatever the number of descriptors -/
+theorem multi_cancel_one_entry (w : Multi05.MW) (id : Nat) (o : Multi05.MOp) (h : w.ops[id]? = some o) :
+    (Multi05.pollCancelMulti w id).ops = modAt (fun o => { o with chan := o.chan ++ [ECANCELED] }) w.ops id ∧
+      (Multi05.pollCancelMulti w id).reg = Multi05.cancelQueues w.reg (o.waits.map (·.1)) id := by
+  simp [Multi05.pollCancelMulti, h]
+
+theorem remove_remove (q : FdQ) (id : Nat) : (q.remove id).remove id = q.remove id := by
+  simp [FdQ.remove, List.filter_filter]
+
+/-- **locality and completeness of a multi-descriptor cancel, all queue states**: for every registry, every list of
+descriptors and every key, each descriptor of the operation gets `remove id` (order of the others kept, `FdQ.remove` is a
+filter) and every other descriptor is untouched -/
+theorem multi_cancel_queues_eq (fds : List Nat) : ∀ (reg : Reg) (id fd : Nat),
+    Multi05.cancelQueues reg fds id fd = if fd ∈ fds then (reg fd).remove id else reg fd := by
+  induction fds with
+  | nil => intro reg id fd; simp [Multi05.cancelQueues]
+  | cons a rest ih =>
+    intro reg id fd
+    have h : Multi05.cancelQueues reg (a :: rest) id = Multi05.cancelQueues (upd reg a ((reg a).remove id)) rest id := by
+      simp [Multi05.cancelQueues]
+    rw [h, ih]
+    by_cases hfa : fd = a
+    · subst hfa
+      simp [remove_remove]
+    · simp [hfa, upd_other _ _ _ _ hfa]
+
+/-- after the cancel the key is in NO queue of any of its descriptors: no later readiness event can pop it (`fdEvent` only runs
+what `popInterest` returns), so nothing of the cancelled operation runs -/
+theorem multi_cancel_gone (fds : List Nat) (reg : Reg) (id fd : Nat) (h : fd ∈ fds) :
+    id ∉ (Multi05.cancelQueues reg fds id fd).rq ∧ id ∉ (Multi05.cancelQueues reg fds id fd).wq := by
+  rw [multi_cancel_queues_eq, if_pos h]
+  simp [FdQ.remove]
+
+/-- non-vacuity: a splice (key 0) queued behind nothing on descriptors 0 (read) and 1 (write), a neighbour (key 1) behind it -/
+example :
+    let reg := Multi05.pushQueues (Multi05.pushQueues Reg.empty [(0, .rd), (1, .wr)] 0) [(0, .rd), (1, .wr)] 1
+    ((Multi05.cancelQueues reg [0, 1] 0 0).rq, (Multi05.cancelQueues reg [0, 1] 0 1).wq) = ([1], [1]) := by decide
 
 end Compio.Props.C05
